@@ -51,6 +51,8 @@ type walkerCase struct {
 	// external cancellation: after this many logged events (-1 = never) and/or after this many µs
 	CancelAfterEvents int `json:"cancelAfterEvents"`
 	CancelAtUs        int `json:"cancelAtUs"`
+	// cancel the parent context synchronously before Walk is called (a signal that arrived during loading / selection / lock wait)
+	PreCancel bool `json:"preCancel"`
 	TimeoutMs         int `json:"timeoutMs"`
 }
 
@@ -216,7 +218,9 @@ func runWalkerCase(wc walkerCase) (map[string]any, error) {
 		lg.mu.Unlock()
 		cancel()
 	}
-	if wc.CancelAfterEvents >= 0 {
+	if wc.PreCancel {
+		doCancel()
+	} else if wc.CancelAfterEvents >= 0 {
 		go func() {
 			lg.mu.Lock()
 			for len(lg.trace) < wc.CancelAfterEvents {
